@@ -1,6 +1,6 @@
 (* C10 — property theorems only (statements + [exact]); the proofs are in Proofs.v, Jump.v, Fast.v. *)
 From Coq Require Import ZArith List Bool.
-From V.C10 Require Import Model Machine Proofs Jump Fast Refine.
+From V.C10 Require Import Model Machine Proofs Jump Fast Refine YP Sim.
 Import ListNotations.
 Local Open Scope Z_scope.
 
@@ -38,24 +38,84 @@ Print Assumptions C10_jump_into_push_data_rejected.
    fault) with the same maximal stack height, for every jump table, code, call data, gas amount and
    step bound.  The stack/memory/pc handling is common to both runs; it is tied to the code by the
    correspondence run and searched against the independent reference machine of the harness. *)
-Theorem C10_machine_refines : forall jd2 P c input,
+Theorem C10_machine_refines : forall jd2 hash E P c input,
   clen c <= U64 ->
   (forall d, 0 <= d -> (jd2 c d = true <-> d < clen c /\ cnth c d = 91 /\ boundary c d)) ->
   forall fuel gas,
-    call impl_op valid_jumpdest P c input fuel gas = call spec_op jd2 P c input fuel gas.
+    call impl_op valid_jumpdest hash E P c input fuel gas = call spec_op jd2 hash E P c input fuel gas.
 Proof. exact machine_refines. Qed.
 Print Assumptions C10_machine_refines.
 
 (* Every stack slot stays a 256-bit word along a run. *)
-Theorem C10_stack_slots_are_words : forall jd2 P c input st st',
-  Forall word (s_stk st) -> step spec_op jd2 P c input st = Next st' -> Forall word (s_stk st').
+Theorem C10_stack_slots_are_words : forall jd2 hash E P c input st st',
+  Forall word (s_stk st) -> step spec_op jd2 hash E P c input st = Next st' -> Forall word (s_stk st').
 Proof. exact spec_step_keeps_words. Qed.
 Print Assumptions C10_stack_slots_are_words.
 
 (* The correspondence run evaluates the machine with mask-based reductions; it is the same function. *)
-Theorem C10_eval_is_model : forall P c input fuel gas, run_fast P c input fuel gas = run_impl P c input fuel gas.
+Theorem C10_eval_is_model : forall hash E P c input fuel gas,
+  run_fast hash E P c input fuel gas = run_impl hash E P c input fuel gas.
 Proof. exact run_fast_eq. Qed.
 Print Assumptions C10_eval_is_model.
+
+(* ---- Yellow-Paper machine ------------------------------------------------------------------------------- *)
+
+(* The destination set D(c) of the Yellow Paper (recursion D_J / N(i, w)) is exactly the set of JUMPDEST bytes at
+   instruction boundaries, hence (with C10_jumpdest) exactly what codeBitmap + validJumpdest accept. *)
+Theorem C10_yp_destination_set : forall c d, in_D c d = true <-> d < clen c /\ cnth c d = 91 /\ boundary c d.
+Proof. exact in_D_spec. Qed.
+Print Assumptions C10_yp_destination_set.
+
+Theorem C10_validJumpdest_is_D : forall c d, 0 <= d -> clen c <= U64 -> valid_jumpdest c d = in_D c d.
+Proof. exact valid_jumpdest_in_D. Qed.
+Print Assumptions C10_validJumpdest_is_D.
+
+(* Refinement of the independent Yellow-Paper machine (YP.v: own decoding by opcode number, delta/alpha table,
+   memory as a total byte map with the active-word counter, D(c), no gas) by the interpreter-shaped machine
+   (Machine.v: jump-table row checks, memorySize/dynamic gas/Resize before execute, pop/peek order, uint256
+   operations, bitmap analysis), on the gas-free projection.  For every jump table that agrees with delta/alpha on
+   the instructions it defines, every code and call data (bytes, shorter than 2^62), every environment of words,
+   every gas amount and every number of iterations: whenever the interpreter run ends -- STOP, RETURN, REVERT with
+   its data, or a fault other than running out of gas -- the Yellow-Paper run of the same length ends the same way
+   with the same output (or has met an instruction outside the gas-free set: GAS, storage, calls, logs ...).
+   The simulation relation (Sim.R) ties pc, stack and every memory byte of the two states after every step. *)
+Theorem C10_refines_yellow_paper : forall defined hash E P c input,
+  table_ok defined P = true ->
+  clen c < 2 ^ 62 -> zlen input < 2 ^ 62 ->
+  (forall x, 0 <= cnth c x < 256) -> (forall x, 0 <= cnth input x < 256) ->
+  (forall l, word (hash l)) -> (forall k, word (env_get E k)) ->
+  forall fuel gas,
+    (exists w, yrun defined hash E c input fuel y0 = YOutside w) \/
+    match proj (fst (run impl_op valid_jumpdest hash E P c input fuel (init gas))) with
+    | Some r => yrun defined hash E c input fuel y0 = r
+    | None => True
+    end.
+Proof. exact impl_refines_yp. Qed.
+Print Assumptions C10_refines_yellow_paper.
+
+(* One iteration: related states step to related states (or both halt alike). *)
+Theorem C10_step_simulation : forall defined hash E P c input,
+  table_ok defined P = true ->
+  clen c < 2 ^ 62 -> zlen input < 2 ^ 62 ->
+  (forall x, 0 <= cnth c x < 256) -> (forall x, 0 <= cnth input x < 256) ->
+  (forall l, word (hash l)) -> (forall k, word (env_get E k)) ->
+  forall st y, R st y -> Qsim defined hash E c input y (step impl_op valid_jumpdest hash E P c input st).
+Proof. exact step_sim. Qed.
+Print Assumptions C10_step_simulation.
+
+(* Hypotheses are satisfiable: the table built from delta/alpha itself is accepted, and on it a program that
+   stores 5 - 3, hashes nothing, reads the environment and returns runs identically on both machines. *)
+Example C10_example_yp :
+  let defined := fun w => match delta_alpha w with Some _ => true | None => false end in
+  let P := mkParams (map (fun k => match delta_alpha (Z.of_nat k) with
+                                   | Some (d, a) => mkRow true 3 d (1024 + d - a)
+                                   | None => no_row end) (seq 0 256)) 1 in
+  let E := mkEnv 1 2 3 4 5 6 7 8 9 10 11 12 in
+  let c := [96; 3; 96; 5; 3; 51; 1; 96; 0; 82; 96; 32; 96; 0; 243] in
+  table_ok defined P = true /\
+  fst (run_impl (fun _ => 0) E P c [] 100 1000) = OReturn (repeat 0 31 ++ [5]) (1000 - 10 * 3 - 3) /\
+  yrun defined (fun _ => 0) E c [] 100 y0 = YReturn (repeat 0 31 ++ [5]).
+Proof. cbv zeta. repeat (match goal with |- _ /\ _ => split end); vm_compute; reflexivity. Qed.
 
 (* Non-vacuity: the boundary cases named in the property. *)
 Example C10_example_words :
@@ -90,5 +150,5 @@ Example C10_example_run :
   let P := mkParams (map (fun _ => mkRow true 3 0 1024) (seq 0 256)) 1 in
   let c := [96; 3; 96; 5; 3; 96; 0; 82; 96; 32; 96; 0; 243] in
   clen c <= U64 /\
-  run_impl P c [] 100 1000 = (OReturn (repeat 0 31 ++ [2]) (1000 - 8 * 3 - 3), 2).
+  run_impl (fun _ => 0) (mkEnv 0 0 0 0 0 0 0 0 0 0 0 0) P c [] 100 1000 = (OReturn (repeat 0 31 ++ [2]) (1000 - 8 * 3 - 3), 2).
 Proof. cbv zeta. split; vm_compute; [discriminate|reflexivity]. Qed.
